@@ -34,6 +34,47 @@ class FuncInfo:
             self._norm = n
         return n
 
+    def specialised(self, names) -> 'FuncInfo':
+        """the same function with the given (trailing, defaulted) parameters removed from the signature and bound to
+        their defaults at the top of the body: what the function does for every caller that does not pass them"""
+        import copy as _copy
+        key = tuple(names)
+        cache = self.__dict__.setdefault('_spec_cache', {})
+        if key in cache:
+            return cache[key]
+        node = _copy.deepcopy(self.node)
+        a = node.args
+        pos = a.posonlyargs + a.args
+        dflt = [None] * (len(pos) - len(a.defaults)) + list(a.defaults)
+        binds = []
+        keep_args, keep_defaults = [], []
+        for p_, d in zip(a.args, dflt[len(a.posonlyargs):]):
+            if p_.arg in names and d is not None:
+                binds.append((p_.arg, d))
+            else:
+                keep_args.append(p_)
+                if d is not None:
+                    keep_defaults.append(d)
+        a.args = keep_args
+        a.defaults = [d for d in dflt[:len(a.posonlyargs)] if d is not None] + keep_defaults
+        kw, kwd = [], []
+        for p_, d in zip(a.kwonlyargs, a.kw_defaults):
+            if p_.arg in names and d is not None:
+                binds.append((p_.arg, d))
+            else:
+                kw.append(p_)
+                kwd.append(d)
+        a.kwonlyargs, a.kw_defaults = kw, kwd
+        body = list(node.body)
+        at = 1 if body and isinstance(body[0], ast.Expr) and isinstance(body[0].value, ast.Constant) and isinstance(body[0].value.value, str) else 0
+        for nm, d in reversed(binds):
+            body.insert(at, ast.copy_location(ast.Assign(targets=[ast.Name(id=nm, ctx=ast.Store())], value=d), node))
+        node.body = body
+        ast.fix_missing_locations(node)
+        f2 = FuncInfo(self.module, self.cls, node)
+        cache[key] = f2
+        return f2
+
     def _helper_resolver(self):
         """call node -> (params, expression, defaults, skip_self) for a private helper of the repository that only returns
         an expression of its arguments: a @staticmethod / a method no subclass overrides called on self or on the class,
@@ -376,6 +417,11 @@ class Repo:
         self.renamed = vocab.renames(trees)
         if self.renamed:
             vocab.apply(trees, self.renamed)
+        # state a backwards-compatible extension added and that no confirmed code can observe (write-only statistics;
+        # attributes bound to the default of a new optional parameter) is taken out before any rule looks
+        self.fresh_write_only, self.fresh_default_bound = vocab.fresh_state(trees)
+        if self.fresh_write_only or self.fresh_default_bound:
+            vocab.drop_fresh(trees, self.fresh_write_only, self.fresh_default_bound)
         for (name, path, rel, src, _t) in found:
             self.modules[name] = Module(self, name, path, rel, src, tree=trees[rel])
         self._link()
@@ -483,14 +529,49 @@ class Repo:
             out |= set(ms)
         return out
 
+    def unused_new_classes(self):
+        """classes the confirmed tree does not have, that are not bases of classes it has, and that nothing else in the
+        package refers to (a `CountingSink(PacketSink)` appended to a module): additions beside the code the references
+        describe.  The rules leave them out - and say so in the evidence - instead of failing on an unclassified class;
+        as soon as existing code instantiates or names such a class it is in scope again."""
+        cached = self.__dict__.get('_unused_new')
+        if cached is not None:
+            return cached
+        out = set()
+        known = self.known_classes()
+        every = [c for m in self.modules.values() for c in m.classes.values()]
+        if known is not None:
+            cand = [c for c in every if c.name not in known and not any(c in k.mro()[1:] for k in every if k.name in known)]
+            names = {c.name for c in cand}
+            used = set()
+            if names:
+                for m in self.modules.values():
+                    own_nodes = {}
+                    for c in m.classes.values():
+                        if c.name in names:
+                            for n in ast.walk(c.node):
+                                own_nodes[id(n)] = c.name
+                    for n in ast.walk(m.tree):
+                        nm = n.id if isinstance(n, ast.Name) else n.attr if isinstance(n, ast.Attribute) else None
+                        if nm in names and own_nodes.get(id(n)) is None:
+                            used.add(nm)
+                # a new class that only other unused new classes name is unused as well (one pass is enough here)
+            out = {c for c in cand if c.name not in used}
+        self.__dict__['_unused_new'] = out
+        return out
+
     def all_classes(self) -> List[ClassInfo]:
-        return [c for m in self.modules.values() for c in m.classes.values()]
+        skip = self.unused_new_classes()
+        return [c for m in self.modules.values() for c in m.classes.values() if c not in skip]
 
     def all_functions(self) -> List[FuncInfo]:
         out = []
+        skip = self.unused_new_classes()
         for m in self.modules.values():
             out.extend(m.functions.values())
             for c in m.classes.values():
+                if c in skip:
+                    continue
                 out.extend(c.methods.values())
                 out.extend(c.typed_stubs.values())
         return out
